@@ -41,6 +41,22 @@ Theorem C13_definitions_unchanged_by_uses : forall stmts e,
   snd (define_and_expand stmts e) = snd (define_macros stmts e).
 Proof. exact definitions_unchanged_by_uses. Qed.
 
+(* separate call sites of the same macro expand independently: the expansion of a program is, statement by statement (and
+   operand by operand), the expansion of that statement alone; two sites with the same call expand to the same tree *)
+Theorem C13_statement_expansion_is_local : forall e l1 s l2,
+  expand_spec e (NStmts (l1 ++ Some s :: l2))
+  = NStmts (bl_with (expand_spec e) l1 ++ Some (expand_spec e s) :: bl_with (expand_spec e) l2).
+Proof. exact statement_expansion_is_local. Qed.
+
+Theorem C13_operands_expand_independently : forall e t a b,
+  expand_spec e (NInfix t (Some a) (Some b)) = NInfix t (Some (expand_spec e a)) (Some (expand_spec e b)).
+Proof. exact operands_expand_independently. Qed.
+
+Theorem C13_same_call_same_expansion : forall e c l1 l2 l3,
+  exists x, expand_spec e (NStmts (l1 ++ Some c :: l2 ++ Some c :: l3))
+            = NStmts (bl_with (expand_spec e) l1 ++ Some x :: bl_with (expand_spec e) l2 ++ Some x :: bl_with (expand_spec e) l3).
+Proof. exact same_call_same_expansion. Qed.
+
 (* the underlying fact about ast.Modify: on a well-formed tree, for a rule that keeps statements and
    identifiers what they are, it is exactly the bottom-up rewrite (no give-up, no panic) *)
 Theorem C13_modify_is_bottom_up_rewrite : forall (g : node -> node),
@@ -72,3 +88,6 @@ Print Assumptions C13_expansion_everywhere.
 Print Assumptions C13_call_site_rule.
 Print Assumptions C13_modify_is_bottom_up_rewrite.
 Print Assumptions C13_definitions_unchanged_by_uses.
+Print Assumptions C13_statement_expansion_is_local.
+Print Assumptions C13_operands_expand_independently.
+Print Assumptions C13_same_call_same_expansion.
